@@ -4,289 +4,698 @@ Decides: the GeoBroadcast request built for every DENM (circle sub-type, area ce
 message that is encoded, port 2002, DENM security profile / ITS-AID 37); the counting-loop idiom of the repetition
 (ceil(T / i) transmissions, the first one before any wait); where station identity and the action identifier's sequence
 number come from (loop-invariant per request, advanced once per request, from state that outlives the message object);
-the LDM feed on reception (event position forwarded field by field, decoded message stored, provider registered);
-conformance of every DENM value to the DENM ASN.1 module (shared engine with C11).
+the LDM feed on reception (every decoded message fed, event position forwarded field by field, decoded message stored,
+provider registered); conformance of every DENM value to the DENM ASN.1 module (shared engine with C11).
 Does not decide cadence ("every i") nor non-decreasing reference times - clock / timing.
+
+Every rule works on resolved calls (which class / method a call reaches), arguments bound to parameter names, values
+expanded through the flow of locals, guard atoms in force at a call, and canonical expression forms - never on the
+spelling of the source.
 """
 from __future__ import annotations
 
 import ast
-import re
+import math
 
 from ..prog import AnalysisError, ClassInfo, FuncInfo, dotted, unparse
+from ..absint import MiniEval, Poly, to_poly
+from ..flow import cond_atoms
 from ..match import pretty
+from .. import sem
 from . import msgutil as MU
+from .c19 import bind_call, sym_paths
 
 PROP = "C17"
 DEN = "facilities.decentralized_environmental_notification_service"
 TM = f"{DEN}.denm_transmission_management.DENMTransmissionManagement"
 MSG = f"{DEN}.denm_transmission_management.DecentralizedEnvironmentalNotificationMessage"
 RX = f"{DEN}.denm_reception_management.DENMReceptionManagement"
+SEQ_MAX = 65535            # SequenceNumber ::= INTEGER (0..65535)
 
 
-def norm(s):
-    return re.sub(r"\s+", "", s)
+# ------------------------------------------------------------------------------------------------ helpers
+def _targets(P, fi, call) -> list:
+    return P.call_targets(fi, call, count=False)
+
+
+def _is_method(t, cls_suffix: str, name: str) -> bool:
+    return isinstance(t, FuncInfo) and t.name == name and t.cls is not None and (t.cls.qual.endswith("." + cls_suffix) or t.cls.name == cls_suffix)
+
+
+def _is_class(t, name: str) -> bool:
+    return isinstance(t, ClassInfo) and t.name == name
+
+
+def _calls(P, fi, pred) -> list:
+    return [c for c in P.calls_in(fi) if any(pred(t) for t in _targets(P, fi, c))]
+
+
+def _enum_is(P, mod, e, cls_name: str, member: str) -> bool:
+    r = P.resolve_expr_entity(mod, e) if e is not None else None
+    return isinstance(r, tuple) and r[0] == "enum" and r[1].name == cls_name and r[2] == member
+
+
+def _enclosing(fl, node, kinds) -> list:
+    out, cur = [], node
+    while cur is not None:
+        cur = fl.parent.get(id(cur))
+        if isinstance(cur, kinds):
+            out.append(cur)
+    return out
+
+
+def _terminates(s) -> bool:
+    if isinstance(s, (ast.Return, ast.Raise, ast.Continue, ast.Break)):
+        return True
+    if isinstance(s, ast.If):
+        return bool(s.body) and bool(s.orelse) and _block_terminates(s.body) and _block_terminates(s.orelse)
+    if isinstance(s, ast.With):
+        return _block_terminates(s.body)
+    if isinstance(s, ast.Try):
+        return _block_terminates(s.body) and all(_block_terminates(h.body) for h in s.handlers)
+    return False
+
+
+def _block_terminates(stmts) -> bool:
+    return any(_terminates(s) for s in stmts)
+
+
+def _reachable(fl, fi, node) -> bool:
+    """No statement that always leaves the block precedes `node` in any enclosing block."""
+    s = node if isinstance(node, ast.stmt) else fl.stmt_of.get(id(node))
+    while s is not None and s is not fi.node:
+        par = fl.parent.get(id(s))
+        if par is None:
+            break
+        for fld in ("body", "orelse", "finalbody"):
+            blk = getattr(par, fld, None)
+            if isinstance(blk, list) and any(x is s for x in blk):
+                idx = [i for i, x in enumerate(blk) if x is s][0]
+                if _block_terminates(blk[:idx]):
+                    return False
+        s = par if isinstance(par, (ast.stmt, ast.ExceptHandler)) else fl.stmt_of.get(id(par))
+        if isinstance(par, ast.ExceptHandler):
+            s = fl.parent.get(id(par))
+    return True
+
+
+def _always(fl, fi, call, allowed=()) -> tuple:
+    """(ok, reason): the call is made on every execution of the function (exactly once), apart from guards in `allowed`."""
+    if not _reachable(fl, fi, call):
+        return False, "the call is unreachable"
+    loops = _enclosing(fl, call, (ast.For, ast.While, ast.AsyncFor))
+    if loops:
+        return False, "the call sits in a loop"
+    if _enclosing(fl, call, (ast.ExceptHandler,)):
+        return False, "the call sits in an exception handler"
+    extra = sem.facts(fl, call) - set(allowed)
+    if extra:
+        return False, f"the call is only made under {sorted(extra)[:4]}"
+    return True, ""
+
+
+def _origin(fl, e, st):
+    """Follow a local through its unique reaching definitions to the expression that was evaluated:
+    (expression, statement that evaluated it or None, state before that statement, resolved?)."""
+    stmt = None
+    for _ in range(12):
+        if not isinstance(e, ast.Name):
+            break
+        ds = fl.reaching(e.id, st)
+        if len(ds) != 1 or ds[0].kind != "assign" or ds[0].value is None:
+            return e, (ds[0].stmt if len(ds) == 1 else None), st, False
+        stmt, e = ds[0].stmt, ds[0].value
+        st = fl.before[id(stmt)]
+    return e, stmt, st, True
+
+
+def _inside(node, containers) -> bool:
+    return any(node is n for c in containers for n in ast.walk(c))
+
+
+def _num_kind(P, fi, e) -> str:
+    """'int' | 'float' | '?' - static numeric kind of an expression (annotations of callees / attributes, literals, operators)."""
+    def typed(x):
+        ts = {t for t in P.expr_types(fi, x) if isinstance(t, str)}
+        if "builtin:float" in ts:
+            return "float"
+        if ts and ts <= {"builtin:int", "builtin:bool"}:
+            return "int"
+        return "?"
+
+    def comb(ks):
+        if "float" in ks:
+            return "float"
+        return "int" if ks and all(k == "int" for k in ks) else "?"
+    if isinstance(e, ast.Constant):
+        return "float" if isinstance(e.value, float) else ("int" if isinstance(e.value, int) else "?")
+    if isinstance(e, ast.Call):
+        fn = dotted(e.func) or ""
+        if fn in ("int", "len", "ord") or (fn == "round" and len(e.args) == 1) or fn in ("math.floor", "math.ceil", "math.trunc"):
+            return "int"
+        if fn == "float":
+            return "float"
+        if fn in ("abs", "min", "max", "sum") and e.args:
+            return comb([_num_kind(P, fi, a) for a in e.args])
+        return typed(e)
+    if isinstance(e, ast.BinOp):
+        if isinstance(e.op, ast.Div):
+            return "float"
+        if isinstance(e.op, (ast.Add, ast.Sub, ast.Mult, ast.FloorDiv, ast.Mod, ast.Pow)):
+            return comb([_num_kind(P, fi, e.left), _num_kind(P, fi, e.right)])
+        return "?"
+    if isinstance(e, ast.UnaryOp):
+        return _num_kind(P, fi, e.operand)
+    if isinstance(e, ast.IfExp):
+        ks = [_num_kind(P, fi, e.body), _num_kind(P, fi, e.orelse)]
+        return "float" if "float" in ks else comb(ks)
+    if isinstance(e, (ast.Name, ast.Attribute, ast.Subscript)):
+        return typed(e)
+    return "?"
 
 
 def run(ctx):
-    P = ctx.prog
     ctx.explanation = (
-        "Provenance rules (K3) on the BTP request built in transmit_denm and on the LDM feed, a counting-loop rule (K10) that "
-        "recognises `t = 0; while t < T: send; wait i; t += i` (or range(ceil(T / i))) and nothing else, identity rules on "
-        "every store to actionId / stationId, and the DENM part of the ASN.1 schema conformance engine. The loop rule gives "
-        "ceil(T / i) for every T and i symbolically; the identity rule is about which state the number is read from and "
-        "where that state advances.")
+        "Provenance rules (K3) on the BTP request built in transmit_denm and on the LDM feed (calls resolved to their "
+        "classes / methods, arguments bound to parameter names, values expanded through local definitions), a counting-loop "
+        "rule (K10) that recognises `t = 0; while t < T: send; wait i; t += i` (any spelling of test and increment) or "
+        "`for _ in range(N)` with N evaluated against ceil(T / i) on a grid of T and i, must-call rules (no guard atom in "
+        "force at the call, not in a loop, reachable) for hand-over, feed and registrations, identity rules on the required "
+        "stores to stationId / actionId and on the manager's allocator (return value = old counter, stored value = old + 1 "
+        "for every 16-bit counter value, one critical section), and the DENM part of the ASN.1 schema conformance engine "
+        "plus a numeric-kind rule for INTEGER positions.")
     ctx.declined = ["cadence 'every i' and reference-time monotonicity (timing / clock)"]
+    area(ctx)
+    tr = count(ctx)
+    identity(ctx, tr)
+    feed(ctx)
+    schema(ctx)
+
+
+# ------------------------------------------------------------------------------------------------ area / request
+def area(ctx):
+    P = ctx.prog
     tm = P.cls(TM)
-    # ---------------------------------------------------------------- area / request
     tx = tm.methods["transmit_denm"]
     fl = ctx.flows.get(tx)
-    reqs = [c for c in P.calls_in(tx) if dotted(c.func) == "BTPDataRequest"]
+    mod = tx.module
+    reqs = _calls(P, tx, lambda t: _is_class(t, "BTPDataRequest"))
     if len(reqs) != 1:
         raise AnalysisError(f"C17: {len(reqs)} BTPDataRequest constructions in transmit_denm")
     c = reqs[0]
     st = fl.state_at(c)
-    kws = {kw.arg: kw.value for kw in c.keywords if kw.arg}
-    loc = f"{tx.module.rel}:{c.lineno}"
+    kws = {k: fl.expand(v, st) for k, v in bind_call(P, tx, c).items()}
+    loc = f"{mod.rel}:{c.lineno}"
+    con = tx.short()
     msgvar = tx.params[1]
-    enc = norm(pretty(unparse(fl.expand(kws["data"], st))))
-    ctx.ob("C17.area", tx.short(), "encodes-the-message", enc == f"self.denm_coder.encode({msgvar}.denm)", f"payload = `{enc}`", loc)
-    ctx.ob("C17.area", tx.short(), "length", norm(pretty(unparse(fl.expand(kws["length"], st)))) == f"len({enc})", "length = len(payload)", loc)
-    ptt = norm(unparse(kws.get("gn_packet_transport_type", ast.Constant(None))))
-    ctx.ob("C17.area", tx.short(), "geobroadcast-circle", "header_type=HeaderType.GEOBROADCAST" in ptt and
-           "header_subtype=GeoBroadcastHST.GEOBROADCAST_CIRCLE" in ptt, f"transport type `{ptt}`", loc)
-    area = kws.get("gn_area")
-    akw = {kw.arg: norm(unparse(kw.value)) for kw in area.keywords if kw.arg} if isinstance(area, ast.Call) else {}
+    show = lambda e: pretty(unparse(e))[:90] if e is not None else "<missing>"
+    data = kws.get("data")
+    enc_ok = False
+    if isinstance(data, ast.Call) and any(_is_method(t, "DENMCoder", "encode") for t in _targets(P, tx, data)):
+        a = [v for k, v in bind_call(P, tx, data).items()]
+        enc_ok = len(a) == 1 and sem.same(a[0], f"{msgvar}.denm")
+    ctx.ob("C17.area", con, "encodes-the-message", enc_ok, f"payload = `{show(data)}`; must be the DENM coder's encoding of `{msgvar}.denm`", loc)
+    ln = kws.get("length")
+    ctx.ob("C17.area", con, "length", isinstance(ln, ast.Call) and dotted(ln.func) == "len" and len(ln.args) == 1 and data is not None
+           and sem.same(ln.args[0], data), f"length = `{show(ln)}`; must be len(payload)", loc)
+    ptt = kws.get("gn_packet_transport_type")
+    pk = bind_call(P, tx, ptt) if isinstance(ptt, ast.Call) and any(_is_class(t, "PacketTransportType") for t in _targets(P, tx, ptt)) else {}
+    ctx.ob("C17.area", con, "geobroadcast-circle", _enum_is(P, mod, pk.get("header_type"), "HeaderType", "GEOBROADCAST") and
+           _enum_is(P, mod, pk.get("header_subtype"), "GeoBroadcastHST", "GEOBROADCAST_CIRCLE"),
+           f"transport type `{show(ptt)}`; must be GEOBROADCAST / GEOBROADCAST_CIRCLE", loc)
+    ar = kws.get("gn_area")
+    ak = bind_call(P, tx, ar) if isinstance(ar, ast.Call) and any(_is_class(t, "Area") for t in _targets(P, tx, ar)) else {}
     for fld in ("latitude", "longitude"):
         want = f"{msgvar}.denm['denm']['management']['eventPosition']['{fld}']"
-        ctx.ob("C17.area", tx.short(), f"centre-{fld}", akw.get(fld) == want,
-               f"area {fld} = `{akw.get(fld)}`; must be the event position of the message being sent (`{want}`)", loc)
-    ra = P.try_fold(tx.module, [kw.value for kw in area.keywords if kw.arg == "a"][0]) if isinstance(area, ast.Call) and "a" in akw else None
-    ctx.ob("C17.area", tx.short(), "radius-positive", isinstance(ra, int) and ra > 0, f"circle radius a = {ra} m", loc)
-    ctx.ob("C17.area", tx.short(), "port", P.try_fold(tx.module, kws.get("destination_port")) == 2002, "DENM BTP port 2002", loc)
-    ctx.ob("C17.area", tx.short(), "btp-b", norm(unparse(kws.get("btp_type"))) == "CommonNH.BTP_B", "BTP-B", loc)
-    ctx.ob("C17.area", tx.short(), "security", norm(unparse(kws.get("security_profile"))) == "SecurityProfile.DECENTRALIZED_ENVIRONMENTAL_NOTIFICATION_MESSAGE"
-           and P.try_fold(tx.module, kws.get("its_aid")) == 37, "DENM security profile, ITS-AID 37", loc)
-    sends = [x for x in P.calls_in(tx) if isinstance(x.func, ast.Attribute) and x.func.attr == "btp_data_request"]
-    ctx.ob("C17.area", tx.short(), "handed-down-once", len(sends) == 1 and norm(unparse(sends[0].args[0])) == "request", "one hand-over to BTP per DENM", loc)
+        ctx.ob("C17.area", con, f"centre-{fld}", fld in ak and sem.same(ak[fld], want),
+               f"area {fld} = `{show(ak.get(fld))}`; must be the event position of the message being sent (`{want}`)", loc)
+    ra = P.try_fold(mod, ak["a"]) if "a" in ak else None
+    ctx.ob("C17.area", con, "radius-positive", isinstance(ra, int) and not isinstance(ra, bool) and ra > 0, f"circle radius a = {ra} m", loc)
+    ctx.ob("C17.area", con, "port", P.try_fold(mod, kws.get("destination_port")) == 2002 if "destination_port" in kws else False,
+           f"destination port `{show(kws.get('destination_port'))}`; DENM BTP port is 2002", loc)
+    ctx.ob("C17.area", con, "btp-b", _enum_is(P, mod, kws.get("btp_type"), "CommonNH", "BTP_B"), f"BTP type `{show(kws.get('btp_type'))}`; must be BTP-B", loc)
+    ctx.ob("C17.area", con, "security", _enum_is(P, mod, kws.get("security_profile"), "SecurityProfile", "DECENTRALIZED_ENVIRONMENTAL_NOTIFICATION_MESSAGE")
+           and "its_aid" in kws and P.try_fold(mod, kws["its_aid"]) == 37, "DENM security profile, ITS-AID 37", loc)
+    sends = _calls(P, tx, lambda t: _is_method(t, "btp.router.Router", "btp_data_request"))
+    ok, why = False, f"{len(sends)} hand-over(s) to BTP"
+    if len(sends) == 1:
+        a = list(bind_call(P, tx, sends[0]).values())
+        if len(a) == 1:
+            e, _, _, res = _origin(fl, a[0], fl.state_at(sends[0]))
+            ok = e is c
+            why = "the request handed down is the one built here" if ok else f"hands down `{show(a[0])}`, not the request built here"
+        if ok:
+            ok, why2 = _always(fl, tx, sends[0])
+            why = why if ok else why2
+    ctx.ob("C17.area", con, "handed-down-once", ok, f"one unconditional hand-over to BTP per DENM: {why}", loc)
+    ctx.floor("C17.area", 10)
 
-    # ---------------------------------------------------------------- repetition count
+
+# ------------------------------------------------------------------------------------------------ repetition count
+def _ceil_witness(P, fi, args: list, T: str, I: str):
+    """First (T, i) for which len(range(*args)) differs from ceil(T / i); None when they agree on the whole grid."""
+    def hook(me, call):
+        fn = dotted(call.func) or ""
+        if fn in ("math.ceil", "ceil", "math.floor", "floor", "math.trunc") and len(call.args) == 1:
+            v = me.ev(call.args[0])
+            return {"ceil": math.ceil, "floor": math.floor, "trunc": math.trunc}[fn.split(".")[-1]](v)
+        return NotImplemented
+    for t in list(range(0, 41)) + [99, 100, 101, 999, 1000, 1001, 59999, 60000]:
+        for i in list(range(1, 14)) + [100, 250, 1000]:
+            ev = MiniEval(P, fi, {T: t, I: i}, hook)
+            try:
+                got = len(range(*[ev.ev(a) for a in args]))
+            except (TypeError, ValueError, ZeroDivisionError):
+                return (t, i, "<error>")
+            if got != -(-t // i):
+                return (t, i, got)
+    return None
+
+
+def count(ctx) -> FuncInfo:
+    P = ctx.prog
+    tm = P.cls(TM)
+    msg = P.cls(MSG)
     tr = tm.methods["trigger_denm_messages"]
+    fl = ctx.flows.get(tr)
+    mod = tr.module
     req = tr.params[1]
+    T, I = f"{req}.time_period", f"{req}.denm_interval"
+    con = tr.short()
+    poly = lambda e: to_poly(P, mod, e, pretty)
     loops = [n for n in ast.walk(tr.node) if isinstance(n, (ast.While, ast.For))]
-    if len(loops) != 1:
+    if len(loops) != 1 or not loops[0].body:
         raise AnalysisError(f"C17: repetition loop shape not recognised ({len(loops)} loops)")
     lp = loops[0]
-    ok_form, why = False, ""
-    if isinstance(lp, ast.While):
-        t = lp.test
-        if isinstance(t, ast.Compare) and len(t.ops) == 1 and isinstance(t.left, ast.Name):
-            cnt = t.left.id
-            strict = isinstance(t.ops[0], ast.Lt)
-            bound = norm(unparse(t.comparators[0]))
-            init = [n for n in tr.node.body if isinstance(n, ast.Assign) and dotted(n.targets[0]) == cnt and n.lineno < lp.lineno]
-            init0 = bool(init) and P.try_fold(tr.module, init[-1].value) == 0
-            incs = [n for n in lp.body if isinstance(n, ast.AugAssign) and dotted(n.target) == cnt and isinstance(n.op, ast.Add)]
-            inc_ok = len(incs) == 1 and norm(unparse(incs[0].value)) == f"{req}.denm_interval"
-            other_writes = [n for n in ast.walk(lp) if isinstance(n, (ast.Assign, ast.AugAssign)) and
-                            dotted(n.targets[0] if isinstance(n, ast.Assign) else n.target) == cnt and n not in incs]
-            txs = [n for n in lp.body if isinstance(n, ast.Expr) and isinstance(n.value, ast.Call) and isinstance(n.value.func, ast.Attribute)
-                   and n.value.func.attr == "transmit_denm"]
-            nested_tx = [n for n in ast.walk(lp) if isinstance(n, ast.Call) and isinstance(n.func, ast.Attribute) and n.func.attr == "transmit_denm"]
-            sleeps = [n for n in lp.body if isinstance(n, ast.Expr) and isinstance(n.value, ast.Call) and (dotted(n.value.func) or "").endswith("sleep")]
-            exits = [n for n in ast.walk(lp) if isinstance(n, (ast.Break, ast.Continue, ast.Return))]
-            loc = f"{tr.module.rel}:{lp.lineno}"
-            ctx.ob("C17.count", tr.short(), "bound", strict and bound == f"{req}.time_period",
-                   f"loop runs while `{unparse(t)}`: with a strict `<` against the request's duration T the body runs ceil(T / i) times"
-                   if strict and bound == f"{req}.time_period" else f"loop test `{unparse(t)}` does not give ceil(T / i) repetitions", loc)
-            ctx.ob("C17.count", tr.short(), "counter", init0 and inc_ok and not other_writes,
-                   f"elapsed-time counter starts at 0 and advances by the request's interval once per repetition" if init0 and inc_ok and not other_writes
-                   else "the elapsed-time counter is not `0, += denm_interval` exactly once per repetition", loc)
-            ctx.ob("C17.count", tr.short(), "one-send-per-iteration", len(txs) == 1 and len(nested_tx) == 1 and not exits,
-                   "exactly one unconditional transmission per repetition, no early exit", loc)
-            first = bool(txs) and bool(sleeps) and lp.body.index(txs[0]) < lp.body.index(sleeps[0])
-            ctx.ob("C17.count", tr.short(), "send-before-wait", first, "the DENM is handed down before the wait (first one at once)", loc)
-            slp = norm(unparse(sleeps[0].value.args[0])) if sleeps else ""
-            ctx.ob("C17.count", tr.short(), "wait-interval", slp == f"{req}.denm_interval/1000", f"wait = `{slp}` s (interval in ms / 1000)", loc)
-            ok_form = True
-    if isinstance(lp, ast.For) and isinstance(lp.iter, ast.Call) and dotted(lp.iter.func) == "range" and len(lp.iter.args) == 1:
-        # `for _ in range(N)`: N must be ceil(T / i)
-        loc = f"{tr.module.rel}:{lp.lineno}"
-        N = lp.iter.args[0]
-        if isinstance(N, ast.Name):
-            ds = [n for n in tr.node.body if isinstance(n, ast.Assign) and dotted(n.targets[0]) == N.id and n.lineno < lp.lineno]
-            N = ds[-1].value if ds else N
-        T_, I_ = f"{req}.time_period", f"{req}.denm_interval"
-        nt = norm(unparse(N))
-        ceil_forms = {f"math.ceil({T_}/{I_})", f"ceil({T_}/{I_})", f"-(-{T_}//{I_})", f"({T_}+{I_}-1)//{I_}", f"({T_}+({I_}-1))//{I_}",
-                      f"int(math.ceil({T_}/{I_}))", f"-(-{T_}//{I_})"}
-        ctx.ob("C17.count", tr.short(), "bound", nt in ceil_forms,
-               f"the loop runs range({nt}) times" + (" = ceil(T / i)" if nt in ceil_forms else
-                                                    ": not ceil(T / i) - a duration that is not a multiple of the interval loses its last DENM (T < i sends none)"), loc)
-        txs = [n for n in lp.body if isinstance(n, ast.Expr) and isinstance(n.value, ast.Call) and isinstance(n.value.func, ast.Attribute)
-               and n.value.func.attr == "transmit_denm"]
-        nested_tx = [n for n in ast.walk(lp) if isinstance(n, ast.Call) and isinstance(n.func, ast.Attribute) and n.func.attr == "transmit_denm"]
-        sleeps = [n for n in lp.body if isinstance(n, ast.Expr) and isinstance(n.value, ast.Call) and (dotted(n.value.func) or "").endswith("sleep")]
-        exits = [n for n in ast.walk(lp) if isinstance(n, (ast.Break, ast.Continue, ast.Return))]
-        ctx.ob("C17.count", tr.short(), "counter", isinstance(lp.target, ast.Name) and not any(isinstance(n, ast.Name) and n.id == lp.target.id and isinstance(n.ctx, ast.Store)
-                                                                                                  for b in lp.body for n in ast.walk(b)),
-               "the loop variable is not modified in the body", loc)
-        ctx.ob("C17.count", tr.short(), "one-send-per-iteration", len(txs) == 1 and len(nested_tx) == 1 and not exits,
-               "exactly one unconditional transmission per repetition, no early exit", loc)
-        first = bool(txs) and bool(sleeps) and lp.body.index(txs[0]) < lp.body.index(sleeps[0])
-        ctx.ob("C17.count", tr.short(), "send-before-wait", first, "the DENM is handed down before the wait (first one at once)", loc)
-        slp = norm(unparse(sleeps[0].value.args[0])) if sleeps else ""
-        ctx.ob("C17.count", tr.short(), "wait-interval", slp == f"{req}.denm_interval/1000", f"wait = `{slp}` s (interval in ms / 1000)", loc)
+    loc = f"{mod.rel}:{lp.lineno}"
+    pre = fl.before[id(lp)]
+    body_in = fl.before[id(lp.body[0])]
+    top = lambda n: any(n is s for s in lp.body)            # statement directly in the loop body (runs once per repetition)
+    assigned = fl.assigned_names(lp.body)
+    invariant = not any(a == req or a.startswith(req + ".") for a in assigned)
+    exits = [n for n in ast.walk(lp) if isinstance(n, (ast.Break, ast.Continue, ast.Return, ast.Raise))]
+    ok_form = False
+    if isinstance(lp, ast.While) and not lp.orelse:
+        atoms = cond_atoms(lp.test, True)
+        cnt = None
+        strict = bound_ok = False
+        if len(atoms) == 1 and atoms[0][1] is True and isinstance(atoms[0][0], ast.Compare) and isinstance(atoms[0][0].ops[0], (ast.Gt, ast.GtE)):
+            cmp_ = atoms[0][0]
+            big, small = cmp_.left, cmp_.comparators[0]
+            if isinstance(small, ast.Name):
+                cnt = small.id
+                strict = isinstance(cmp_.ops[0], ast.Gt)
+                bound_ok = sem.same(fl.expand(big, body_in), T)
+        if cnt is None:
+            raise AnalysisError("C17: repetition loop is not of the recognised counting form (`while <counter> < <bound>`)")
         ok_form = True
+        good = strict and bound_ok and invariant
+        ctx.ob("C17.count", con, "bound", good,
+               f"loop runs while `{unparse(lp.test)}`: with a strict `<` against the request's duration T the body runs ceil(T / i) times"
+               if good else f"loop test `{unparse(lp.test)}` does not give ceil(T / i) repetitions (needs `counter < {T}`, T unchanged in the loop)", loc)
+        init = fl.reaching(cnt, pre)
+        init0 = len(init) == 1 and init[0].kind == "assign" and init[0].value is not None and P.try_fold(mod, init[0].value) == 0 and \
+            not isinstance(P.try_fold(mod, init[0].value), bool)
+        writes = [n for n in ast.walk(lp) if isinstance(n, (ast.Assign, ast.AugAssign, ast.AnnAssign)) and
+                  any(isinstance(x, ast.Name) and x.id == cnt and isinstance(x.ctx, ast.Store)
+                      for t in (n.targets if isinstance(n, ast.Assign) else [n.target]) for x in ast.walk(t))]
+        inc_ok = False
+        if len(writes) == 1 and top(writes[0]):
+            w = writes[0]
+            ws = fl.before[id(w)]
+            if isinstance(w, ast.AugAssign) and isinstance(w.op, ast.Add) and isinstance(w.target, ast.Name):
+                inc_ok = poly(fl.expand(w.value, ws)) == poly(ast.parse(I, mode="eval").body)
+            elif isinstance(w, ast.Assign) and len(w.targets) == 1 and isinstance(w.targets[0], ast.Name):
+                inc_ok = poly(fl.expand(w.value, ws)) - Poly.atom(cnt) == poly(ast.parse(I, mode="eval").body)
+        ctx.ob("C17.count", con, "counter", init0 and inc_ok and invariant,
+               "elapsed-time counter starts at 0 and advances by the request's interval once per repetition" if init0 and inc_ok and invariant
+               else "the elapsed-time counter is not `0, += denm_interval` exactly once per repetition", loc)
+    elif isinstance(lp, ast.For) and not lp.orelse and isinstance(lp.iter, ast.Call) and dotted(lp.iter.func) == "range" and \
+            1 <= len(lp.iter.args) <= 3 and not lp.iter.keywords:
+        ok_form = True
+        args = [fl.expand(a, pre) for a in lp.iter.args]
+        try:
+            wit = _ceil_witness(P, tr, args, T, I)
+        except AnalysisError as e:
+            raise AnalysisError(f"C17: repetition count `{unparse(lp.iter)}` cannot be evaluated: {e}")
+        ctx.ob("C17.count", con, "bound", wit is None,
+               f"the loop runs range({', '.join(pretty(unparse(a)) for a in args)}) times" + (" = ceil(T / i) for every T and i of the grid" if wit is None else
+               f": for T = {wit[0]} ms and i = {wit[1]} ms that is {wit[2]} repetition(s), ceil(T / i) = {-(-wit[0] // wit[1])} - a duration that is "
+               "not a multiple of the interval loses its last DENM (T < i sends none)"), loc)
+        tg = [x.id for x in ast.walk(lp.target) if isinstance(x, ast.Name)]
+        ctx.ob("C17.count", con, "counter", not any(t in assigned - set(tg) for t in tg) and
+               not any(isinstance(n, ast.Name) and n.id in tg and isinstance(n.ctx, ast.Store) for b in lp.body for n in ast.walk(b)),
+               "the loop variable is not modified in the body", loc)
     if not ok_form:
         raise AnalysisError("C17: repetition loop is not of the recognised counting form")
-    # the message sent in each repetition is built from the request and the vehicle data
-    src = norm(unparse(lp))
-    ctx.ob("C17.count", tr.short(), "message-from-request", f".fullfill_with_denrequest({req})" in src and ".fullfill_with_vehicle_data(self.vehicle_data)" in src,
-           "every repetition is built from the same request and vehicle data", f"{tr.module.rel}:{lp.lineno}")
+    # one unconditional transmission per repetition, before the wait
+    tx_fn = tm.methods["transmit_denm"]
+    all_tx = _calls(P, tr, lambda t: t is tx_fn)
+    in_tx = [c for c in all_tx if _inside(c, [lp])]
+    tx_stmt = [s for s in lp.body if isinstance(s, ast.Expr) and in_tx and s.value is in_tx[0]]
+    one = len(all_tx) == 1 and len(in_tx) == 1 and len(tx_stmt) == 1 and not exits
+    ctx.ob("C17.count", con, "one-send-per-iteration", one,
+           "exactly one unconditional transmission per repetition, none outside the loop, no early exit" if one else
+           f"{len(in_tx)} transmission(s) in the loop ({len(all_tx)} in the function), {len(exits)} early exit(s); "
+           "the transmission must be an unconditional statement of the loop body", loc)
+    sleeps = [c for c in P.calls_in(tr) if any(isinstance(t, str) and t == "ext:time.sleep" for t in _targets(P, tr, c))]
+    s_stmt = [s for s in lp.body if isinstance(s, ast.Expr) and any(s.value is c for c in sleeps)]
+    first = one and len(sleeps) == len(s_stmt) and bool(s_stmt) and all(
+        [i for i, s in enumerate(lp.body) if s is tx_stmt[0]][0] < [i for i, s in enumerate(lp.body) if s is ss][0] for ss in s_stmt)
+    ctx.ob("C17.count", con, "send-before-wait", first,
+           "the DENM is handed down before the wait (first one at once)" if first else
+           "a wait can come before the transmission (or is conditional / outside the loop): the first DENM is delayed", loc)
+    wait = None
+    for ss in s_stmt:
+        a = list(bind_call(P, tr, ss.value).values())
+        p_ = poly(fl.expand(a[0], fl.before[id(ss)])) if len(a) == 1 else None
+        wait = p_ if wait is None or p_ is None else wait + p_
+    want = poly(ast.parse(f"{I} / 1000", mode="eval").body)
+    ctx.ob("C17.count", con, "wait-interval", wait is not None and wait == want and invariant,
+           f"wait per repetition = {wait!r} s; must be the request's interval in ms / 1000 ({want!r})", loc)
+    # the message sent in each repetition is a fresh one, built from the request and the vehicle data
+    ok_msg, why = False, "no transmission recognised"
+    if one:
+        send = in_tx[0]
+        sst = fl.state_at(send)
+        a = list(bind_call(P, tr, send).values())
+        mv = a[0].id if len(a) == 1 and isinstance(a[0], ast.Name) else None
+        ds = fl.reaching(mv, sst) if mv else []
+        # a DENM object of its own for this request (created per repetition or once before the loop; every element is
+        # re-filled by the two fullfill_* calls of each repetition)
+        fresh = len(ds) == 1 and ds[0].kind == "assign" and isinstance(ds[0].value, ast.Call) and \
+            (top(ds[0].stmt) or any(ds[0].stmt is s_ for s_ in tr.node.body)) and any(t is msg for t in _targets(P, tr, ds[0].value))
+        got = {}
+        for f in sst.facts:
+            if f.kind != "call" or not isinstance(f.node, ast.Call) or not isinstance(f.node.func, ast.Attribute):
+                continue
+            if not (isinstance(f.node.func.value, ast.Name) and f.node.func.value.id == mv and _inside(f.node, [lp])):
+                continue
+            for nm in ("fullfill_with_denrequest", "fullfill_with_vehicle_data"):
+                if any(t == msg.methods[nm].qual for t in f.targets):
+                    b = list(bind_call(P, tr, f.node).values())
+                    got[nm] = len(b) == 1 and sem.same(fl.expand(b[0], fl.state_at(f.node)), req if nm == "fullfill_with_denrequest" else "self.vehicle_data")
+        ok_msg = fresh and got.get("fullfill_with_denrequest") is True and got.get("fullfill_with_vehicle_data") is True and invariant
+        why = (f"message object of this request: {fresh}; filled from the request: {got.get('fullfill_with_denrequest')}; "
+               f"filled from self.vehicle_data: {got.get('fullfill_with_vehicle_data')}")
+    ctx.ob("C17.count", con, "message-from-request", ok_msg,
+           "every repetition sends a message (re)built from the same request and the vehicle data" if ok_msg else why, loc)
+    # each request gets its own thread running the repetition
     rs = tm.methods["request_denm_sending"]
-    ctx.ob("C17.count", rs.short(), "thread-per-request", "threading.Thread(target=self.trigger_denm_messages,args=[denm_request])" in norm(unparse(rs.node)),
-           "each request gets its own repetition thread", rs.loc)
+    rfl = ctx.flows.get(rs)
+    ths = [c for c in P.calls_in(rs) if any(isinstance(t, str) and t == "ext:threading.Thread" for t in _targets(P, rs, c))]
+    ok_t, why = False, f"{len(ths)} thread construction(s)"
+    if len(ths) == 1:
+        th = ths[0]
+        k = {kw.arg: rfl.expand(kw.value, rfl.state_at(th)) for kw in th.keywords if kw.arg}
+        tgt = k.get("target")
+        is_tr = isinstance(tgt, ast.Attribute) and isinstance(tgt.value, ast.Name) and tgt.value.id == rs.params[0] and tm.find_method(tgt.attr) is tr
+        a, kw = k.get("args"), k.get("kwargs")
+        arg_ok = (isinstance(a, (ast.List, ast.Tuple)) and len(a.elts) == 1 and sem.same(a.elts[0], rs.params[1]) and kw is None) or \
+                 (a is None and isinstance(kw, ast.Dict) and len(kw.keys) == 1 and isinstance(kw.keys[0], ast.Constant) and
+                  kw.keys[0].value == tr.params[1] and sem.same(kw.values[0], rs.params[1]))
+        starts = [c for c in P.calls_in(rs) if isinstance(c.func, ast.Attribute) and c.func.attr == "start" and not c.args and
+                  _origin(rfl, c.func.value, rfl.state_at(c))[0] is th]
+        started = len(starts) == 1 and _always(rfl, rs, starts[0])[0] and _always(rfl, rs, th)[0]
+        ok_t = is_tr and arg_ok and started
+        why = f"target is the repetition method: {is_tr}; argument is the request: {arg_ok}; started unconditionally: {started}"
+    ctx.ob("C17.count", rs.short(), "thread-per-request", ok_t, "each request gets its own repetition thread" if ok_t else why, rs.loc)
+    ctx.floor("C17.count", 7)
+    return tr
 
-    # ---------------------------------------------------------------- identity
+
+# ------------------------------------------------------------------------------------------------ identity
+def _allocator(ctx, tm, fn: FuncInfo) -> dict:
+    """Analysis of a manager method that hands out a sequence number: every path returns the counter value found at entry and
+    stores counter + 1 (wrapping inside 0..65535), read and store inside one critical section."""
+    P = ctx.prog
+    out = {"reads": False, "advance": False, "atomic": False, "why": ""}
+    try:
+        paths = [p for p in sym_paths(fn) if p.kind != "raise"]
+    except AnalysisError as e:
+        out["why"] = f"allocator body not analysable: {e}"
+        return out
+    me = fn.params[0]
+    ctr = f"{me}.sequence_number"
+    out["reads"] = bool(paths) and all(p.value is not None and sem.same(p.value, ctr) for p in paths)
+    adv = bool(paths)
+    for p in paths:
+        sts = p.stored(ctr)
+        if len(sts) != 1:
+            adv = False
+            out["why"] = f"{len(sts)} store(s) to {ctr} on a path"
+            break
+        expr = sts[0][0]
+        for k in range(0, SEQ_MAX + 1):
+            try:
+                v = MiniEval(P, fn, {ctr: k}).ev(expr)
+            except AnalysisError as e:
+                v = None
+                out["why"] = str(e)
+            want = k + 1 if k < SEQ_MAX else None
+            if v is None or isinstance(v, bool) or not isinstance(v, int) or not (0 <= v <= SEQ_MAX) or (want is not None and v != want) or v == k:
+                adv = False
+                out["why"] = out["why"] or f"counter {k} is followed by {v}"
+                break
+        if not adv:
+            break
+    out["advance"] = adv
+    # one critical section around every access to the counter
+    fl = ctx.flows.get(fn)
+    acc = [n for n in ast.walk(fn.node) if isinstance(n, ast.Attribute) and dotted(n) == ctr]
+    common = None
+    for n in acc:
+        ws = {id(w) for w in _enclosing(fl, n, (ast.With,)) if any(fl.lock_key(i.context_expr) is not None for i in w.items)}
+        common = ws if common is None else common & ws
+    out["atomic"] = bool(acc) and bool(common)
+    return out
+
+
+def identity(ctx, tr: FuncInfo):
+    P = ctx.prog
+    tm = P.cls(TM)
     msg = P.cls(MSG)
+    M = MU.Messages(ctx)
     fv = msg.methods["fullfill_with_vehicle_data"]
     flv = ctx.flows.get(fv)
-    for n in ast.walk(fv.node):
-        if isinstance(n, ast.Assign) and isinstance(n.targets[0], ast.Subscript):
-            key = norm(unparse(n.targets[0]))
-            v = norm(pretty(unparse(flv.expand(n.value, flv.before[id(n)]))))
-            if key.endswith("['stationId']") or key.endswith("['originatingStationId']"):
-                ctx.ob("C17.identity", fv.short(), key.split("['")[-1][:-2], v == "vehicle_data.station_id", f"`{key}` := `{v}`", f"{fv.module.rel}:{n.lineno}")
-            if key.endswith("['sequenceNumber']"):
-                ctx.ob("C17.identity", fv.short(), "sequenceNumber-source", v == "self.sequence_number",
-                       f"actionId.sequenceNumber := `{v}` (the message object's sequence_number attribute)", f"{fv.module.rel}:{n.lineno}")
-    # who sets <message>.sequence_number?  It must come from the manager, once per request, outside the repetition loop
-    setters = []
+    vd = fv.params[1]
+    me = fv.params[0]
+    # ---- required stores of fullfill_with_vehicle_data (absence fails)
+    required = [(["header", "stationId"], "stationId", f"{vd}.station_id"),
+                (["denm", "management", "actionId", "originatingStationId"], "originatingStationId", f"{vd}.station_id"),
+                (["denm", "management", "actionId", "sequenceNumber"], "sequenceNumber-source", f"{me}.sequence_number")]
+    mine = [s for s in M.stores("DENM") if s.fi.qual == fv.qual]
+    seq_store_ok = True
+    for path, disc, want in required:
+        ss = [s for s in mine if s.path == path]
+        if not ss:
+            ctx.ob("C17.identity", fv.short(), disc, False,
+                   f"no store into DENM.{'.'.join(path)} in {fv.name}: the element keeps the template value 0 "
+                   f"(stores made: {sorted('.'.join(map(str, s.path)) for s in mine)})", fv.loc)
+            if disc.startswith("sequenceNumber"):
+                seq_store_ok = False
+            continue
+        for s in ss:
+            st = flv.before[id(s.stmt)]
+            v = flv.expand(s.value, st)
+            al, why = _always(flv, fv, s.stmt)
+            ok = sem.same(v, want) and al
+            ctx.ob("C17.identity", fv.short(), disc, ok,
+                   f"DENM.{'.'.join(path)} := `{pretty(unparse(v))}`; must be `{want}`" + ("" if al else f" ({why})"), f"{fv.module.rel}:{s.stmt.lineno}")
+            if disc.startswith("sequenceNumber"):
+                untouched = f"{me}.sequence_number" not in st.defs
+                ctx.ob("C17.identity", fv.short(), "no-rewrite-before-store", untouched,
+                       "the message object does not change its sequence number before it is written into actionId", f"{fv.module.rel}:{s.stmt.lineno}")
+    # ---- every DENM handed to transmit_denm: who sets <message>.sequence_number?
+    tx_fn = tm.methods["transmit_denm"]
+    sites = []
     for m in tm.methods.values():
-        fm = ctx.flows.get(m)
-        for n in ast.walk(m.node):
-            if isinstance(n, ast.Assign) and isinstance(n.targets[0], ast.Attribute) and n.targets[0].attr == "sequence_number" and \
-                    not (isinstance(n.targets[0].value, ast.Name) and n.targets[0].value.id == "self"):
-                setters.append((m, n, fm))
-            if isinstance(n, ast.Call):
-                tg = [t for t in P.call_targets(m, n, count=False) if isinstance(t, ClassInfo) and t is msg]
-                if tg and (n.args or n.keywords):
-                    setters.append((m, n, fm))
-    per_request = {}
-    for m, n, fm in setters:
-        per_request[m.name] = (n, fm)
-    for path_fn in ("trigger_denm_messages", "send_collision_risk_warning_denm"):
-        m = tm.methods[path_fn]
-        if path_fn not in per_request:
-            ctx.ob("C17.identity", m.short(), "sequence-number-allocated", False,
+        for c in _calls(P, m, lambda t: t is tx_fn):
+            if m is not tx_fn:
+                sites.append((m, c))
+    if len(sites) < 2:
+        raise AnalysisError(f"C17: {len(sites)} hand-over(s) to transmit_denm found in the manager (confirmed: 2)")
+    alloc_cache = {}
+    for m, send in sites:
+        fl = ctx.flows.get(m)
+        con = m.short()
+        loc = f"{m.module.rel}:{send.lineno}"
+        sst = fl.state_at(send)
+        a = list(bind_call(P, m, send).values())
+        mv = a[0].id if len(a) == 1 and isinstance(a[0], ast.Name) else None
+        ds = fl.reaching(mv, sst) if mv else []
+        is_msg = len(ds) == 1 and ds[0].kind == "assign" and isinstance(ds[0].value, ast.Call) and any(t is msg for t in _targets(P, m, ds[0].value))
+        vcall = None
+        for f in sst.facts:
+            if f.kind == "call" and isinstance(f.node, ast.Call) and isinstance(f.node.func, ast.Attribute) and \
+                    isinstance(f.node.func.value, ast.Name) and f.node.func.value.id == mv and any(t == fv.qual for t in f.targets):
+                vcall = f.node
+        seq = fl.reaching(f"{mv}.sequence_number", fl.state_at(vcall)) if vcall is not None else []
+        allocated = is_msg and vcall is not None and len(seq) == 1 and seq[0].kind == "assign" and seq[0].value is not None
+        if not allocated:
+            ctx.ob("C17.identity", con, "sequence-number-allocated", False,
                    "the DENM built here takes actionId.sequenceNumber from its own freshly created message object (initialised to 0, "
                    "incremented only on that throw-away object): every event of this station carries action id (station, 0) - different "
-                   "events are indistinguishable, and DENMTransmissionManagement.sequence_number is never used", m.loc)
+                   "events are indistinguishable, and DENMTransmissionManagement.sequence_number is never used"
+                   if is_msg and vcall is not None else
+                   "the message handed to transmit_denm is not a fresh DENM filled with the vehicle data on every path", loc)
             continue
-        n, fm = per_request[path_fn]
-        val = n.value if isinstance(n, ast.Assign) else (n.args[0] if n.args else n.keywords[0].value)
-        lp_here = [x for x in ast.walk(m.node) if isinstance(x, (ast.While, ast.For))]
-        inside = any(n in list(ast.walk(x)) for x in lp_here)
-        # the value must be loop invariant: a local defined before the loop (or the setter itself outside the loop)
-        invariant = True
-        defs = []
-        if inside and isinstance(val, ast.Name):
-            defs = [d for d in ast.walk(m.node) if isinstance(d, ast.Assign) and dotted(d.targets[0]) == val.id]
-            invariant = bool(defs) and all(not any(d in list(ast.walk(x)) for x in lp_here) for d in defs)
-            src_expr = norm(unparse(defs[0].value)) if defs else ""
-        elif inside:
-            invariant = False
-            src_expr = norm(unparse(val))
+        store = seq[0].stmt
+        e, ostmt, ost, resolved = _origin(fl, seq[0].value, fl.before[id(store)])
+        ostmt = ostmt or store
+        ctx.ob("C17.identity", con, "sequence-number-allocated", True,
+               f"sequence number provided by the manager (`{pretty(unparse(e))[:60]}`)", f"{m.module.rel}:{store.lineno}")
+        loops = _enclosing(fl, send, (ast.While, ast.For))
+        inv = resolved and not _inside(ostmt, loops)
+        ctx.ob("C17.identity", con, "same-for-all-repetitions", inv,
+               "all repetitions of one request carry the same sequence number (drawn before the loop)" if inv else
+               "the sequence number is drawn inside the repetition loop: repetitions of one event get different action ids",
+               f"{m.module.rel}:{ostmt.lineno}")
+        afn = None
+        if isinstance(e, ast.Call):
+            tg = [t for t in P.call_targets(m, e, count=False, cha=False) if isinstance(t, FuncInfo) and t.cls is tm]
+            afn = tg[0] if len(tg) == 1 else None
+        if afn is not None:
+            if afn.qual not in alloc_cache:
+                alloc_cache[afn.qual] = _allocator(ctx, tm, afn)
+            r = alloc_cache[afn.qual]
+            where = afn.short()
+            aloc = afn.loc
         else:
-            src_expr = norm(unparse(val))
-        ctx.ob("C17.identity", m.short(), "sequence-number-allocated", True, f"sequence number provided by the manager (`{src_expr[:60]}`)", f"{m.module.rel}:{n.lineno}")
-        ctx.ob("C17.identity", m.short(), "same-for-all-repetitions", invariant,
-               "all repetitions of one request carry the same sequence number (allocated before the loop)" if invariant else
-               "the sequence number is (re)allocated inside the repetition loop: repetitions of one event get different action ids",
-               f"{m.module.rel}:{n.lineno}")
-        # where does the value come from?  either a direct read of manager state or a manager method that returns it
-        alloc_fn, alloc_node = m, None
-        vnode = defs[0].value if (inside and isinstance(val, ast.Name) and defs) else val
-        if isinstance(vnode, ast.Name) and not inside:
-            d2 = [d for d in ast.walk(m.node) if isinstance(d, ast.Assign) and dotted(d.targets[0]) == vnode.id]
-            vnode = d2[0].value if d2 else vnode
-        if isinstance(vnode, ast.Call):
-            tg = [t for t in P.call_targets(m, vnode, count=False) if isinstance(t, FuncInfo) and t.cls is tm]
-            if tg:
-                alloc_fn = tg[0]
-        reads = [x for x in ast.walk(alloc_fn.node) if isinstance(x, ast.Attribute) and isinstance(x.ctx, ast.Load) and dotted(x) == "self.sequence_number"]
-        writes = [x for x in ast.walk(alloc_fn.node) if isinstance(x, (ast.Assign, ast.AugAssign)) and
-                  dotted(x.targets[0] if isinstance(x, ast.Assign) else x.target) == "self.sequence_number"]
-        ctx.ob("C17.identity", m.short(), "from-manager-state", bool(reads),
-               f"the number is read from DENMTransmissionManagement.sequence_number (in {alloc_fn.short()}), state that outlives the message",
-               f"{m.module.rel}:{n.lineno}")
-        in_loop = any(w in list(ast.walk(x)) for w in writes for x in lp_here) if alloc_fn is m else inside and not invariant
-        adv_ok = False
-        for w in writes:
-            if isinstance(w, ast.AugAssign):
-                adv_ok = isinstance(w.op, ast.Add) and P.try_fold(alloc_fn.module, w.value) == 1
-            else:
-                outs = []
-                for k in (0, 1, 7):
-                    class Sub(ast.NodeTransformer):
-                        def visit_Attribute(self, a):
-                            return ast.Constant(k) if dotted(a) == "self.sequence_number" else a
-                    import copy
-                    outs.append(P.try_fold(alloc_fn.module, ast.fix_missing_locations(Sub().visit(copy.deepcopy(w.value)))))
-                adv_ok = outs == [1, 2, 8]
-        ctx.ob("C17.identity", m.short(), "advances-once-per-event", bool(writes) and adv_ok and not in_loop,
-               f"handing out a number advances the manager's counter by one, once per event (in {alloc_fn.short()})" if writes and adv_ok and not in_loop
-               else "the manager's counter is not advanced by one exactly once per event: two events can get the same action id",
-               f"{alloc_fn.module.rel}:{(writes[0].lineno if writes else alloc_fn.node.lineno)}")
-        # requests run on their own threads (request_denm_sending): read and advance must be one critical section
-        withs = [x for x in ast.walk(alloc_fn.node) if isinstance(x, ast.With)]
-        atomic = bool(reads) and bool(writes) and any(all(r in list(ast.walk(wb)) for r in reads) and all(w in list(ast.walk(wb)) for w in writes)
-                                                      and any("lock" in norm(unparse(i.context_expr)).lower() for i in wb.items) for wb in withs)
-        ctx.ob("C17.identity", m.short(), "allocation-atomic", atomic,
-               "read-and-advance of the counter is one critical section (requests run on concurrent threads)" if atomic else
-               "the counter is read and advanced without a lock although every request runs on its own thread: two concurrent events can draw the same number",
-               f"{alloc_fn.module.rel}:{alloc_fn.node.lineno}")
-    # the message-local counter must not override what the manager set before the store
-    for n in ast.walk(fv.node):
-        if isinstance(n, ast.Assign) and dotted(n.targets[0]) == "self.sequence_number":
-            st_store = [x for x in ast.walk(fv.node) if isinstance(x, ast.Assign) and isinstance(x.targets[0], ast.Subscript) and
-                        norm(unparse(x.targets[0])).endswith("['sequenceNumber']")]
-            ctx.ob("C17.identity", fv.short(), "no-rewrite-before-store", all(n.lineno > x.lineno for x in st_store),
-                   "the message object does not change its sequence number before it is written into actionId", f"{fv.module.rel}:{n.lineno}")
+            direct = sem.same(e, f"{m.params[0]}.sequence_number")
+            r = {"reads": direct, "advance": False, "atomic": False,
+                 "why": f"`{pretty(unparse(e))[:60]}` is not a call of a manager method that hands out and advances the counter"}
+            where, aloc = con, f"{m.module.rel}:{ostmt.lineno}"
+        ctx.ob("C17.identity", con, "from-manager-state", r["reads"],
+               f"the number handed out is the value of DENMTransmissionManagement.sequence_number (in {where}), state that outlives the message"
+               if r["reads"] else f"the number is not the manager's counter value: {r['why'] or 'a path returns something else'}", aloc)
+        ctx.ob("C17.identity", con, "advances-once-per-event", r["advance"] and inv,
+               f"handing out a number advances the manager's counter by one inside 0..{SEQ_MAX}, once per event (in {where})" if r["advance"] and inv
+               else f"the manager's counter is not advanced by one exactly once per event: two events can get the same action id ({r['why']})", aloc)
+        ctx.ob("C17.identity", con, "allocation-atomic", r["atomic"],
+               "read-and-advance of the counter is one critical section (requests run on concurrent threads)" if r["atomic"] else
+               "the counter is read and advanced without a common lock although every request runs on its own thread: two concurrent "
+               "events can draw the same number", aloc)
+    ctx.floor("C17.identity", 14)
 
-    # ---------------------------------------------------------------- LDM feed
+
+# ------------------------------------------------------------------------------------------------ LDM feed
+def feed(ctx):
+    P = ctx.prog
     rx = P.cls(RX)
     fd = rx.methods["feed_ldm"]
     ffl = ctx.flows.get(fd)
-    lb = [x for x in P.calls_in(fd) if isinstance(x.func, ast.Attribute) and x.func.attr == "location_builder_circle"]
+    me, dv = fd.params[0], fd.params[1]
+    ldm_ok = set(sem.want(f"{me}.ldm_facility is not None")) | set(sem.want(f"{me}.ldm_facility"))
+    show = lambda e: pretty(unparse(e))[:100] if e is not None else "<missing>"
+    lb = _calls(P, fd, lambda t: _is_method(t, "Location", "location_builder_circle"))
     if len(lb) != 1:
         raise AnalysisError("C17: feed_ldm no longer builds the location with location_builder_circle")
-    kws = {kw.arg: norm(unparse(kw.value)) for kw in lb[0].keywords if kw.arg}
-    base = "denm['denm']['management']['eventPosition']"
+    lk = {k: ffl.expand(v, ffl.state_at(lb[0])) for k, v in bind_call(P, fd, lb[0]).items()}
+    base = f"{dv}['denm']['management']['eventPosition']"
     for k, want in (("latitude", f"{base}['latitude']"), ("longitude", f"{base}['longitude']"), ("altitude", f"{base}['altitude']['altitudeValue']")):
-        ctx.ob("C17.feed", fd.short(), k, kws.get(k) == want, f"LDM location {k} = `{kws.get(k)}` (must be the DENM's event position {k})",
-               f"{fd.module.rel}:{lb[0].lineno}")
-    add = [x for x in P.calls_in(fd) if dotted(x.func) == "AddDataProviderReq"]
-    akw = {kw.arg: norm(unparse(kw.value)) for kw in add[0].keywords if kw.arg} if add else {}
-    ctx.ob("C17.feed", fd.short(), "object", akw.get("data_object") == "denm" and akw.get("application_id") == "DENM",
-           "the decoded DENM itself is stored under the DENM application id", fd.loc)
-    ctx.ob("C17.feed", fd.short(), "added", "self.ldm_facility.if_ldm_3.add_provider_data(data)" in norm(unparse(fd.node)), "handed to IF.LDM.3", fd.loc)
-    rc = rx.methods["reception_callback"]
-    src = norm(unparse(rc.node))
-    ctx.ob("C17.feed", rc.short(), "decode-then-feed", "denm=self.denm_coder.decode(btp_indication.data)" in src and "self.feed_ldm(denm)" in src,
-           "every received DENM is decoded and fed to the LDM", rc.loc)
+        ctx.ob("C17.feed", fd.short(), k, k in lk and sem.same(lk[k], want),
+               f"LDM location {k} = `{show(lk.get(k))}` (must be the DENM's event position {k}, `{want}`)", f"{fd.module.rel}:{lb[0].lineno}")
+    add = _calls(P, fd, lambda t: _is_class(t, "AddDataProviderReq"))
+    denm_const = P.module("facilities.local_dynamic_map.ldm_constants").consts.get("DENM")
+
+    def is_denm_id(mod, e):
+        r = P.resolve_expr_entity(mod, e) if e is not None else None
+        return isinstance(r, tuple) and r[0] == "const" and denm_const is not None and r[2] is denm_const
+    ok_obj = False
+    ak = {}
+    if len(add) == 1:
+        ak = {k: ffl.expand(v, ffl.state_at(add[0])) for k, v in bind_call(P, fd, add[0]).items()}
+        loc_ok = "location" in ak and _origin(ffl, bind_call(P, fd, add[0])["location"], ffl.state_at(add[0]))[0] is lb[0]
+        ok_obj = "data_object" in ak and sem.same(ak["data_object"], dv) and is_denm_id(fd.module, bind_call(P, fd, add[0]).get("application_id")) and loc_ok
+    ctx.ob("C17.feed", fd.short(), "object", ok_obj,
+           f"data_object = `{show(ak.get('data_object'))}`, application_id = `{show(ak.get('application_id'))}`: the decoded DENM itself must be "
+           "stored under the DENM application id with the location built from its event position", fd.loc)
+    puts = _calls(P, fd, lambda t: isinstance(t, FuncInfo) and t.name == "add_provider_data")
+    ok_add, why = False, f"{len(puts)} call(s) of add_provider_data"
+    if len(puts) == 1 and len(add) == 1:
+        a = list(bind_call(P, fd, puts[0]).values())
+        ok_add = len(a) == 1 and _origin(ffl, a[0], ffl.state_at(puts[0]))[0] is add[0] and \
+            sem.same(puts[0].func.value if isinstance(puts[0].func, ast.Attribute) else ast.Constant(None), f"{me}.ldm_facility.if_ldm_3")
+        why = "" if ok_add else f"`{show(puts[0])}` does not hand the request built here to {me}.ldm_facility.if_ldm_3"
+        if ok_add:
+            ok_add, why = _always(ffl, fd, puts[0], ldm_ok)
+    ctx.ob("C17.feed", fd.short(), "added", ok_add, "handed to IF.LDM.3 whenever an LDM is attached" if ok_add else f"not always handed to IF.LDM.3: {why}", fd.loc)
+    # every received DENM is decoded and fed
     init = rx.methods["__init__"]
-    src = norm(unparse(init.node))
-    ctx.ob("C17.feed", init.short(), "provider-registered", "register_data_provider(RegisterDataProviderReq(application_id=DENM" in src,
-           "the reception manager registers as DENM data provider", init.loc)
-    ctx.ob("C17.feed", init.short(), "port", "register_indication_callback_btp(port=2002,callback=self.reception_callback)" in src, "listens on BTP port 2002", init.loc)
-    # ---------------------------------------------------------------- schema (DENM part of the C11 engine)
-    # only the elements this property speaks about: identity, reference time, event position (the rest of the DENM is C11's)
+    ifl = ctx.flows.get(init)
+    regs = _calls(P, init, lambda t: _is_method(t, "btp.router.Router", "register_indication_callback_btp"))
+    rc = None
+    ok_port, why = False, f"{len(regs)} registration(s) with the BTP router"
+    if len(regs) == 1:
+        rk = {k: ifl.expand(v, ifl.state_at(regs[0])) for k, v in bind_call(P, init, regs[0]).items()}
+        cb = bind_call(P, init, regs[0]).get("callback")
+        if isinstance(cb, ast.Attribute) and isinstance(cb.value, ast.Name) and cb.value.id == init.params[0]:
+            rc = rx.find_method(cb.attr)
+        al, why2 = _always(ifl, init, regs[0])
+        ok_port = P.try_fold(init.module, rk.get("port")) == 2002 and rc is not None and al
+        why = f"port `{show(rk.get('port'))}`, callback `{show(cb)}`" + ("" if al else f", {why2}")
+    ctx.ob("C17.feed", init.short(), "port", ok_port, "listens on BTP port 2002 with its reception callback" if ok_port else why, init.loc)
+    if rc is None:
+        rc = rx.methods["reception_callback"]
+    rfl = ctx.flows.get(rc)
+    feeds = _calls(P, rc, lambda t: t is fd)
+    ok_feed, why = False, f"{len(feeds)} call(s) of feed_ldm in {rc.name}"
+    if len(feeds) == 1:
+        a = list(bind_call(P, rc, feeds[0]).values())
+        x = rfl.expand(a[0], rfl.state_at(feeds[0])) if len(a) == 1 else None
+        dec = isinstance(x, ast.Call) and any(_is_method(t, "DENMCoder", "decode") for t in _targets(P, rc, x))
+        da = list(bind_call(P, rc, x).values()) if dec else []
+        dec = dec and len(da) == 1 and sem.same(da[0], f"{rc.params[1]}.data")
+        al, why2 = _always(rfl, rc, feeds[0])
+        ok_feed = dec and al
+        why = (f"feeds `{show(x)}`" if not dec else "") + ("" if al else why2)
+    ctx.ob("C17.feed", rc.short(), "decode-then-feed", ok_feed,
+           "every received DENM is decoded and fed to the LDM" if ok_feed else f"not every received DENM is decoded and fed to the LDM: {why}", rc.loc)
+    rdp = _calls(P, init, lambda t: isinstance(t, FuncInfo) and t.name == "register_data_provider")
+    ok_reg, why = False, f"{len(rdp)} call(s) of register_data_provider"
+    if len(rdp) == 1:
+        a = list(bind_call(P, init, rdp[0]).values())
+        x = ifl.expand(a[0], ifl.state_at(rdp[0])) if len(a) == 1 else None
+        is_req = isinstance(x, ast.Call) and any(_is_class(t, "RegisterDataProviderReq") for t in _targets(P, init, x))
+        app = bind_call(P, init, x).get("application_id") if is_req else None
+        # the facility tested is the one stored in self.ldm_facility (the constructor argument)
+        lf = ifl.expand(ast.parse(f"{init.params[0]}.ldm_facility", mode="eval").body, ifl.state_at(rdp[0]))
+        allowed = set(ldm_ok) | set(sem.atoms(ast.Compare(left=lf, ops=[ast.IsNot()], comparators=[ast.Constant(None)]), True)) | set(sem.atoms(lf, True))
+        al, why2 = _always(ifl, init, rdp[0], allowed)
+        ok_reg = is_req and is_denm_id(init.module, app) and al
+        why = f"registers `{show(x)}`" + ("" if al else f", {why2}")
+    ctx.ob("C17.feed", init.short(), "provider-registered", ok_reg,
+           "the reception manager registers as DENM data provider whenever an LDM is attached" if ok_reg else why, init.loc)
+    ctx.floor("C17.feed", 8)
+
+
+# ------------------------------------------------------------------------------------------------ schema
+def schema(ctx):
+    """DENM part of the C11 engine for the elements this property speaks about: identity, reference time, event position -
+    every store made by fullfill_with_vehicle_data (whatever its key) and every store below those elements elsewhere."""
+    P = ctx.prog
     M = MU.Messages(ctx)
+    fv = P.cls(MSG).methods["fullfill_with_vehicle_data"]
     mine = ("actionId", "stationId", "originatingStationId", "sequenceNumber", "eventPosition", "referenceTime", "detectionTime")
-    MU.check_stores(ctx, M, "DENM", "C17.schema", "C17.schema", only=lambda s: any(k in mine for k in s.path))
+    sel = lambda s: s.fi.qual == fv.qual or any(k in mine for k in s.path)
+    MU.check_stores(ctx, M, "DENM", "C17.schema", "C17.schema", only=sel)
+    # INTEGER positions must not be fed by float-typed expressions (asn1tools raises on 1.7e12 where 1700000000000 is meant)
+    ck = M.checker("DENM", "C17.schema", "C17.schema")
+    tm_, lit = M.templates["DENM"]
+    for s in M.stores("DENM"):
+        if not sel(s) or "?" in s.path:
+            continue
+        t, _ = ck.descend(M.roots["DENM"], s.path, lit)
+        if t is None or t.get("type") != "INTEGER":
+            continue
+        fl = ctx.flows.get(s.fi)
+        v = fl.expand(s.value, fl.before[id(s.stmt)])
+        kind = _num_kind(P, s.fi, v)
+        pstr = "DENM" + "".join(f".{k}" if isinstance(k, str) else f"[{k}]" for k in s.path)
+        ctx.ob("C17.schema", s.fi.short(), f"{pstr}:integer", kind != "float",
+               f"`{pretty(unparse(v))[:70]}` stored into the INTEGER {t.get('_name', 'element')} is " +
+               ("an int" if kind == "int" else "not known to be a float" if kind == "?" else
+                "float-typed (annotation / operator): the encoder rejects it - wrap it in int(...)"), f"{s.fi.module.rel}:{s.stmt.lineno}")
     MU.check_reads(ctx, M, "DENM", "C17.schema", [(f"{RX}.feed_ldm", "denm"), (f"{RX}.reception_callback", "denm")])
-    ctx.floor("C17.schema", 10)
-    ctx.floor("C17.area", 9)
-    ctx.floor("C17.count", 6)
+    ctx.floor("C17.schema", 21)
